@@ -112,6 +112,23 @@ func (h *counterHistory) findCounterFor(ourKeyID, theirKeyID uint32) *keyPairCou
 	return c
 }
 
+// forgetRetired drops the counters of key pairs that can no longer be used:
+// those involving a key older than the previous one on either side
+func (h *counterHistory) forgetRetired(ourKeyID, theirKeyID uint32) {
+	live := h.counters[:0]
+	for _, c := range h.counters {
+		if c.ourKeyID+1 < ourKeyID || c.theirKeyID+1 < theirKeyID {
+			c.wipe()
+			continue
+		}
+		live = append(live, c)
+	}
+	for i := len(live); i < len(h.counters); i++ {
+		h.counters[i] = nil
+	}
+	h.counters = live
+}
+
 type keyManagementContext struct {
 	ourKeyID, theirKeyID                        uint32
 	ourCurrentDHKeys, ourPreviousDHKeys         dhKeyPair
@@ -178,6 +195,7 @@ func (c *Conversation) rotateKeys(dataMessage dataMsg) error {
 		return err
 	}
 	c.keys.rotateTheirKey(dataMessage.senderKeyID, dataMessage.y)
+	c.keys.counterHistory.forgetRetired(c.keys.ourKeyID, c.keys.theirKeyID)
 
 	return nil
 }
